@@ -414,6 +414,18 @@ def replay_all(ctx, fac, emitted, rng, quick, variants):
         if not picks:
             raise tlc.MachineryError("no scenario for the registered custom model %s" % name)
         forced += [(name, c) for c in picks]
+    # always: the mixture models with NON-uniform MC weights (the weighted normalisation integrals of signal and
+    # background are different sums: I_sig = sum v eff |A|^2, I_bg = sum v b), each by its own implementation
+    def nonuniform_mc(c):
+        gs = c["core"]["groups"]
+        return len(gs) == 1 and gs[0]["mckey"] and len(set(tuple(v) for v in gs[0]["mv"])) > 1
+    for impl_name in (("cfit",) if quick else ("cfit", "cfit_ext", "cfit_cached", "simple_cfit")):
+        kind = IMPL_KINDS[impl_name][0]
+        cand = sorted([c for c in emitted if c["core"]["kind"] == kind and nonuniform_mc(c)],
+                      key=lambda c: (-size(c), json.dumps(c["core"], sort_keys=True)))
+        if not cand and impl_name == "cfit":
+            raise tlc.MachineryError("no cfit scenario with non-uniform MC weights among the emitted scenarios")
+        forced += [(impl_name, c) for c in cand[:1]]
     ctx.part("replay", strata=len(strata), chosen=len(chosen), registered_custom_models=custom, custom_scenarios=len(forced))
     stats = {"max_rel_dev": 0.0, "clip_skipped": 0, "scenarios": 0, "evaluations": 0, "scaled": 0, "ext_scaled_changed": 0, "sum_of_parts": 0}
     rot = {}
